@@ -8,7 +8,7 @@
 //   nat3 S A B C a b LIST      NaturalSum<S>(a, b, c)        (S, A, B, C from a fixed set of combinations)
 //   set2 S A B a LIST          v = 1; r = SetToNaturalSumOrMax(v, a, b)
 //   LIST = "all" (every value of the type, 8-bit types only) or comma separated decimals
-//   self16 MODE SEED           law check by the driver itself over 16-bit x 16-bit values against __int128 arithmetic
+//   self16 MODE SEED [NRANDOM [THREADS]]   law check by the driver itself over 16-bit x 16-bit values against __int128 arithmetic
 // Out: {"op","S","T":[types],"pre":[values],"lo":first value,"n":count | "last":[values],"out":[results],"ub":bool}
 //   explicit lists: values are {"neg":bool,"mag":[little-endian decimal digits]}; less: out = 0/1; sums: {"h":has value,"m":digits};
 //                   set2: {"m":digits of the stored value,"same":returned == stored}
@@ -20,6 +20,7 @@
 #include <cstring>
 #include <limits>
 #include <random>
+#include <thread>
 
 typedef __int128 Wide;
 
@@ -114,11 +115,12 @@ template <class S, class A, class B> static void SelfOne(SelfStats &st, const A 
     if (!ok && !st.bad++)
         st.first = std::string(Name<S>()) + " " + Name<A>() + " " + Name<B>() + " " + std::to_string(long(a)) + " " + std::to_string(long(b));
 }
-template <class S, class A, class B> static void SelfPair(SelfStats &st, const bool full, const std::vector<long> &extra)
+/// a-range share `part` of `parts` (the driver runs the shares on threads)
+template <class S, class A, class B> static void SelfPair(SelfStats &st, const bool full, const std::vector<long> &extra, const int part, const int parts)
 {
     const long alo = std::numeric_limits<A>::min(), ahi = std::numeric_limits<A>::max();
     const long blo = std::numeric_limits<B>::min(), bhi = std::numeric_limits<B>::max();
-    for (long a = alo; a <= ahi; ++a) {
+    for (long a = alo + part; a <= ahi; a += parts) {
         if (full) {
             for (long b = blo; b <= bhi; ++b) SelfOne<S>(st, static_cast<A>(a), static_cast<B>(b));
         } else {
@@ -126,12 +128,12 @@ template <class S, class A, class B> static void SelfPair(SelfStats &st, const b
         }
     }
 }
-template <class S> static void SelfAllPairs(SelfStats &st, const bool full, const std::vector<long> &extra)
+template <class S> static void SelfAllPairs(SelfStats &st, const bool full, const std::vector<long> &extra, const int part, const int parts)
 {
-    SelfPair<S, int16_t, int16_t>(st, full, extra);
-    SelfPair<S, int16_t, uint16_t>(st, full, extra);
-    SelfPair<S, uint16_t, int16_t>(st, full, extra);
-    SelfPair<S, uint16_t, uint16_t>(st, full, extra);
+    SelfPair<S, int16_t, int16_t>(st, full, extra, part, parts);
+    SelfPair<S, int16_t, uint16_t>(st, full, extra, part, parts);
+    SelfPair<S, uint16_t, int16_t>(st, full, extra, part, parts);
+    SelfPair<S, uint16_t, uint16_t>(st, full, extra, part, parts);
 }
 
 int main()
@@ -209,16 +211,24 @@ int main()
             std::vector<long> extra;
             for (long base : {-32768L, -129L, -128L, -1L, 0L, 1L, 127L, 128L, 255L, 256L, 32767L, 32768L, 65535L})
                 for (long d = -2; d <= 2; ++d) extra.push_back(base + d);
-            for (int i = 0; i < 4096; ++i) extra.push_back(long(rng() % 98304) - 32768);
+            const int nrandom = t.size() > 3 ? atoi(t[3].c_str()) : 192;
+            for (int i = 0; i < nrandom; ++i) extra.push_back(long(rng() % 98304) - 32768);
+            const int parts = t.size() > 4 ? atoi(t[4].c_str()) : 4;
+            std::vector<SelfStats> stats(parts);
+            std::vector<std::thread> threads;
+            for (int part = 0; part < parts; ++part)
+                threads.emplace_back([&, part]() {
+                    SelfStats &s = stats[part];
+                    SelfAllPairs<int16_t>(s, full, extra, part, parts);
+                    SelfAllPairs<uint16_t>(s, full, extra, part, parts);
+                    if (!full) {
+                        SelfAllPairs<int8_t>(s, false, extra, part, parts);
+                        SelfAllPairs<uint64_t>(s, false, extra, part, parts);
+                    }
+                });
+            for (auto &th : threads) th.join();
             SelfStats st;
-            SelfAllPairs<int16_t>(st, full, extra);
-            SelfAllPairs<uint16_t>(st, full, extra);
-            if (!full) {
-                SelfAllPairs<int8_t>(st, false, extra);
-                SelfAllPairs<uint8_t>(st, false, extra);
-                SelfAllPairs<int32_t>(st, false, extra);
-                SelfAllPairs<uint64_t>(st, false, extra);
-            }
+            for (const auto &s : stats) { st.count += s.count; if (s.bad && !st.bad) st.first = s.first; st.bad += s.bad; }
             std::cout << "{\"op\":\"self16\",\"mode\":\"" << t[1] << "\",\"count\":" << st.count << ",\"bad\":" << st.bad << ",\"first_bad\":\"" << st.first
                       << "\",\"ub\":" << U::B(U::TakeReports() > 0) << "}" << std::endl;
         }
